@@ -449,7 +449,6 @@ func (p *Prog) NodeReachable() map[*ssa.Function]bool {
 	return nodeReach
 }
 
-
 var nodePkgs map[string]bool
 
 // NodePackages: import paths linked into the miner or sharder binary (transitive
